@@ -27,7 +27,14 @@ def cost(parts):
     from metasequoia_sql import SQLParser, SQLType
     from metasequoia_sql.common import TokenScanner
     from metasequoia_sql.lexical import FSMMachine
-    counts = {"handle": 0, "cursor": 0, "maxback": 0, "reads": 0}
+    counts = {"handle": 0, "cursor": 0, "maxback": 0, "reads": 0, "calls": 0}
+    import sys as _sys, os as _os
+    pkg = _os.sep + "metasequoia_sql" + _os.sep
+
+    def prof(frame, event, arg):
+        # every Python-level call made inside the library: total work, whatever it is spent on (copies, rebuilt nodes, re-parsing …)
+        if event == "call" and pkg in frame.f_code.co_filename:
+            counts["calls"] += 1
 
     class CountingList(list):
         """the token list of a cursor: one step per element read, k steps for a slice or an iteration of k elements (a copied tail is work too)"""
@@ -74,7 +81,11 @@ def cost(parts):
     FSMMachine.handle = ch
     try:
         try:
-            SQLParser.parse_statements(canon.unhex(parts[2]), sql_type=SQLType[parts[1]])
+            _sys.setprofile(prof)
+            try:
+                SQLParser.parse_statements(canon.unhex(parts[2]), sql_type=SQLType[parts[1]])
+            finally:
+                _sys.setprofile(None)
             out = "OK"
         except Exception as e:
             out = "REJ:" + canon.err_kind(e).replace(" ", "_")
@@ -83,7 +94,7 @@ def cost(parts):
         TokenScanner.__init__ = oinit
         for n, f in wrapped.items():
             setattr(TokenScanner, n, f)
-    return "%s handle=%d cursor=%d reads=%d backwards=%d" % (out, counts["handle"], counts["cursor"], counts["reads"], counts["maxback"])
+    return "%s handle=%d cursor=%d reads=%d calls=%d backwards=%d" % (out, counts["handle"], counts["cursor"], counts["reads"], counts["calls"], counts["maxback"])
 
 
 def timing(parts):
